@@ -74,13 +74,14 @@ def units(run, fx):
     targets = [
         ('graphite2::Slot::finalise', {'base': PX, 'bbox': PX, 'clusterMin': PX}, 'font'),
         ('graphite2::Segment::justify', {'width': PX}, 'font'),
-        ('gr_slot_advance_X', {}, 'font'),
-        ('gr_slot_advance_Y', {}, 'font'),
+        ('gr_slot_advance_X', {}, 'font', PX),
+        ('gr_slot_advance_Y', {}, 'font', PX),
         ('graphite2::Face::default_glyph_advance', {}, '<none>'),
     ]
-    for q, pu, fp in targets:
+    for tgt in targets:
+        q, pu, fp = tgt[:3]
         fn = fx.one(q)
-        uc = UnitCheck(fn, pu, fp)
+        uc = UnitCheck(fn, pu, fp, ret_unit=tgt[3] if len(tgt) > 3 else None)
         probs = uc.run()
         inst = 'units in %s' % q.split('::')[-1]
         if uc.npaths == 0 or uc.nops == 0:
